@@ -125,8 +125,10 @@ JoinStr(ss, sep) == IF ss = <<>> THEN "" ELSE IF Len(ss) = 1 THEN ss[1]
 BoolStr(b) == IF b THEN "TRUE" ELSE "FALSE"
 \* "{:.3}" of a float: exact (round half to even on the exact value) for non-finite values, zeros and
 \* small dyadics; other floats are not modelled ("not printable")
-FPrintable(b) == ~FIsFinite(b) \/ FIsZero(b) \/
-                 LET d == FDecode(b) IN d.m < 4096 /\ d.e >= -20 /\ (d.e <= 0 \/ BitLen(d.m) + d.e <= 20)
+\* (a negative value that prints as zero, -0.0 included, is not modelled either: "-0.000" and "0.000" both read back as zero)
+FPrintable(b) == ~FIsFinite(b) \/ (FIsZero(b) /\ ~FNegBit(b)) \/
+                 (~FIsZero(b) /\ LET d == FDecode(b) IN d.m < 4096 /\ d.e >= -20 /\ (d.e <= 0 \/ BitLen(d.m) + d.e <= 20)
+                                                     /\ (~FNegBit(b) \/ d.e >= 0 \/ (d.m * 1000) \div 2^(-d.e) >= 1))
 Pad3(n) == IF n < 10 THEN "00" \o ToString(n) ELSE IF n < 100 THEN "0" \o ToString(n) ELSE ToString(n)
 PrintFloat(b) ==
   IF FIsNaN(b) THEN "NaN"
